@@ -809,6 +809,9 @@ type ElectionMonitor struct {
 	FullSets  int
 	Ties      int
 	Excluded  map[string]int
+	// VRFFiltered / VRFFallback count the elections under the VRF backend in which the candidates were
+	// (were not) restricted to nodes with a stored proof (VRF beacon support).
+	VRFFiltered, VRFFallback int
 }
 
 // OnTap implements Monitor.
@@ -910,8 +913,38 @@ func (m *ElectionMonitor) checkValidators(h *History, ctx *cmt.Context, pend map
 			m.Excluded["stake-claims-not-covered"]++
 		default:
 			eligible[n.ID] = n
-			eligByEntity[n.EntityID] = append(eligByEntity[n.EntityID], n)
 		}
+	}
+	// VRF beacon support: under the VRF backend the candidates are the eligible validator nodes that
+	// have a stored proof of the previous epoch, provided at least MinValidators of them have one
+	// (otherwise all eligible validator nodes, shuffled by the epoch entropy as under the insecure
+	// backend). Nothing changes under the insecure backend.
+	var prevPi map[signature.PublicKey]*signature.Proof
+	vrfFilter := false
+	if snap, err := readVRF(pre); err == nil && snap.Params.Backend == beacon.BackendVRF && snap.State != nil && snap.State.PrevState != nil {
+		prevPi = snap.State.PrevState.Pi
+		withPi := 0
+		for id := range eligible {
+			if prevPi[id] != nil {
+				withPi++
+			}
+		}
+		vrfFilter = withPi >= sp.MinValidators
+		if vrfFilter {
+			m.VRFFiltered++
+		} else {
+			m.VRFFallback++
+		}
+	}
+	for _, n := range nodes {
+		if eligible[n.ID] == nil {
+			continue
+		}
+		if vrfFilter && prevPi[n.ID] == nil {
+			m.Excluded["no-vrf-proof"]++
+			continue
+		}
+		eligByEntity[n.EntityID] = append(eligByEntity[n.EntityID], n)
 	}
 	perEntity := map[signature.PublicKey]int{}
 	minElected := (*big.Int)(nil)
@@ -919,6 +952,10 @@ func (m *ElectionMonitor) checkValidators(h *History, ctx *cmt.Context, pend map
 		n := eligible[v.ID]
 		if n == nil {
 			viol("ineligible-node-elected", fmt.Sprintf("node %s (entity %s) was elected validator but is not eligible (unregistered, expired at epoch %d, frozen, without validator role, or entity stake below its claims)", v.ID, v.EntityID, epoch), nil)
+			continue
+		}
+		if vrfFilter && prevPi[v.ID] == nil {
+			viol("elected-without-vrf-proof", fmt.Sprintf("node %s (entity %s) was elected validator for epoch %d without a stored VRF proof of the previous epoch although %d or more eligible validator nodes have one", v.ID, v.EntityID, epoch, sp.MinValidators), nil)
 			continue
 		}
 		if n.Consensus.ID != ck || n.EntityID != v.EntityID {
